@@ -296,9 +296,14 @@ class World:
         from cooler.fileops import ln
 
         sf, sp = self._src(op)
+        kind = op["kind"]
+        if kind == "soft" and op.get("via_link"):
+            # the source of the new soft link is itself a link (soft or external) that leads to a collection
+            links = sorted(p for p, e in self.entries[op["src_file"]].items() if e["kind"] in ("soft", "ext"))
+            if links:
+                sf, sp = op["src_file"], links[op["src"] % len(links)]
         if sf is None:
             return False
-        kind = op["kind"]
         df = sf if kind in ("hard", "soft") else 1 - sf
         if not os.path.exists(self.files[df]):
             return False
@@ -442,7 +447,8 @@ def make_machine(ctx: Ctx):
 
         @rule(src_file=st.integers(0, 1), src=st.integers(0, 9), dst=st.integers(0, 9), kind=st.sampled_from(["hard", "soft", "ext"]), slash=st.booleans(), cli=st.booleans())
         def ln(self, src_file, src, dst, kind, slash, cli):
-            self.w.apply({"op": "ln", "src_file": src_file, "src": src, "dst": dst, "kind": kind, "slash": slash, "cli": cli})
+            self.w.apply({"op": "ln", "src_file": src_file, "src": src, "dst": dst, "kind": kind, "slash": slash, "cli": cli,
+                          "via_link": (src + dst) % 2 == 0})
 
     return FileOps
 
